@@ -431,7 +431,18 @@ class CFG:
                 if fr is not None:
                     return fr
             if isinstance(s, (ast.Assign, ast.AugAssign, ast.AnnAssign, ast.Expr, ast.Return, ast.Raise, ast.Assert, ast.Delete)):
+                exc_override = None
+                if isinstance(s, ast.Raise) and isinstance(s.exc, ast.Call):
+                    # `raise self._helper(...)`: the exception class is the one the helper constructs
+                    t_ = self.inliner.target(self.fi, s.exc, self._inline_stack, "value")
+                    if t_ is not None and not getattr(t_, "pseudo", False):
+                        from .program import walk_local as _wl
+                        made = {exc_name_of(r_.value) for r_ in _wl(t_.node) if isinstance(r_, ast.Return) and r_.value is not None}
+                        if len(made) == 1 and None not in made:
+                            exc_override = made.pop()
                 pre, s2 = self._hoist(s, ctxs)
+                if pre is not None and exc_override is not None:
+                    s2._exc_name = exc_override
                 if pre is not None:
                     if isinstance(s2, ast.Expr) and isinstance(s2.value, ast.Name) and s2.value.id.startswith("__ret_"):
                         return pre
@@ -510,7 +521,7 @@ class CFG:
                 n.extra["exc"] = None
                 self._route(n, None if h is None or h.types is None or len(h.types) != 1 else h.types[0], ctxs)
             else:
-                en = exc_name_of(s.exc)
+                en = getattr(s, "_exc_name", None) or exc_name_of(s.exc)
                 n.extra["exc"] = en
                 self._route(n, en, ctxs)
             return Frag(n, [])
